@@ -123,3 +123,11 @@ reg("C35", "model_checking", "TLA+ specs StateUpd (policy monitor) and StateUpdM
     "(reads issued and finished, updates, connection changes with times) must satisfy StateUpd: a read only when its policy permits and whenever it is due.",
     "Trusted: TLC, the virtual-time loop, the mocked interface. Readings: see the assumptions in the evidence (first read of an expire value, 15 s slack for due reads).",
     "DESIGN.md section 5 C35")
+
+reg("C41", "model_checking", "TLA+ spec Expose (bus obligations) with operational model Expose_MC model-checked by TLC; trace validation of the real ExposeSensor in a started XKNX under virtual time",
+    "Expose_MC (set, skip_unchanged, cooldown task, read, initialize, telegrams processed back) is explored for every interleaving of five user events within "
+    "three cooldowns and judged by the clauses of Expose (update telegrams a cooldown apart, last value on the bus within one cooldown, reads answered with the "
+    "most recent value, sound skipping); the real ExposeSensor runs all three-event histories over set/skip/read/initialize with gaps before, at and after the cooldown "
+    "expiry (sampled in quick) and random bursts for cooldown 0, 2 s and 10 s; every trace of calls and value telegrams must be a behaviour of Expose.",
+    "Trusted: TLC, the virtual-time loop, the mocked interface (sends at once). initialize_value is read as 'treated as sent'.",
+    "DESIGN.md section 5 C41")
